@@ -523,8 +523,12 @@ impl Rasn {
                 _ => TokenStream::new(),
             }
         } else {
+            // a type reference may stand for an INTEGER, whose absent lower bound is MIN
             self.format_range_annotations(
-                matches!(member.ty(), ASN1Type::Integer(_)),
+                matches!(
+                    member.ty(),
+                    ASN1Type::Integer(_) | ASN1Type::ElsewhereDeclaredType(_)
+                ),
                 &all_constraints,
             )?
         };
